@@ -81,6 +81,14 @@ def check_frozen(case: Any, cfg: EnOptConfig) -> None:  # noqa: ANN401
             except Exception:  # noqa: BLE001, S112
                 continue
             check(False, "model-mutable", f"assignment to {path}.{name} succeeded on a validated configuration", case)  # noqa: FBT003
+        for name in type(obj).model_fields:
+            value = getattr(obj, name)
+            try:
+                delattr(obj, name)
+            except Exception:  # noqa: BLE001, S112
+                continue
+            object.__setattr__(obj, name, value) if not hasattr(obj, name) else None
+            check(False, "model-mutable", f"'del {path}.{name}' succeeded on a validated configuration", case)  # noqa: FBT003
 
 
 def equal_configs(case: Any, a: Any, b: Any, path: str, what: str) -> None:  # noqa: ANN401
